@@ -50,6 +50,8 @@ def correspondence(ctx, batch):
             samples, cmps = gen.gen_literal_boundary(rng), []
         elif i % 8 == 1:
             samples, cmps = [{k: v} for k, v in gen.gen_two_pass_merge(rng).items()], []
+        elif i % 8 == 5:
+            samples = gen.gen_key_order_swap(rng)
         for v in [samples] + variants(rng, samples, 3):
             stages.stage_generate(batch, v, registry)
             if rng.random() < 0.4:
@@ -137,6 +139,8 @@ def falsify(ctx):
             samples, cmps = gen.gen_chain_samples(rng), []
         elif r > .66 and r <= .72:
             samples = gen.gen_python_equal_samples(rng)
+        elif r > .60 and r <= .66:
+            samples = gen.gen_key_order_swap(rng)
         elif r > .72 and r <= .78:
             samples, cmps = gen.gen_object_members(rng), common.cmps_choice(rng)
         elif r > .78 and r <= .84:
